@@ -228,7 +228,56 @@ func TestC04(t *testing.T) {
 				_ = h.A.Bridge.AddAccountBlocks(wb)
 			}
 		}
+		// a hand-made block: a PLAIN receive (user type, no key, no signature - blocks of contract addresses carry none) on a
+		// contract's chain, naming a send the contract has already received (or its inbox head, or any send to it)
+		plainReceiveOnContract := func() {
+			l, err := sim.Scan(h.A)
+			if err != nil {
+				return
+			}
+			var cands []*nom.AccountBlock
+			for _, s := range l.Sends {
+				if types.IsEmbeddedAddress(s.ToAddress) && !l.Pooled[s.Hash] {
+					cands = append(cands, s)
+				}
+			}
+			if len(cands) == 0 {
+				return
+			}
+			sortBlocks(cands)
+			s := cands[c.Pick("plain.idx", len(cands))]
+			ct := s.ToAddress
+			ms := h.A.Chain.GetFrontierMomentumStore()
+			ch, err := ms.GetBlockConfirmationHeight(s.Hash)
+			if err != nil || ch == 0 {
+				return
+			}
+			cm, err := ms.GetMomentumByHeight(ch)
+			if err != nil || cm == nil {
+				return
+			}
+			ack := cm.Identifier()
+			if c.Bool("plain.ackFrontier") {
+				ack = h.A.Frontier().Identifier()
+			}
+			prev := h.A.Chain.GetFrontierAccountStore(ct).Identifier()
+			blk := &nom.AccountBlock{Version: 1, ChainIdentifier: h.A.Chain.ChainIdentifier(), BlockType: []uint64{nom.BlockTypeUserReceive, nom.BlockTypeUserReceive, nom.BlockTypeGenesisReceive}[c.Pick("plain.type", 3)],
+				Address: ct, PreviousHash: prev.Hash, Height: prev.Height + 1, MomentumAcknowledged: ack, FromBlockHash: s.Hash,
+				Amount: big.NewInt(0), Data: []byte{}}
+			blk.Hash = blk.ComputeHash()
+			wb, err := sim.WireBlocks([]*nom.AccountBlock{blk})
+			if err != nil {
+				return
+			}
+			err = h.A.Bridge.AddAccountBlocks(wb)
+			c.Note("plain receive block on %s naming send %s (already received: %v) -> %v", sim.ContractNames[ct], s.Hash.String()[:8], len(l.Recv[s.Hash]) > 0, err)
+			c.Class("plain-receive-on-a-contract-chain-offered")
+			if err != nil {
+				rejectedCompeting++
+			}
+		}
 		acts := histActions(h)
+		acts["plainReceiveOnContract"] = plainReceiveOnContract
 		acts["replayContractReceive"] = replay
 		acts["double"] = double
 		acts["fork"] = fork
